@@ -250,7 +250,7 @@ def run_ops(ctx: _Ctx, ops: list) -> list:
                 try:
                     t1.reset()
                     code1 = t1.transform(ctx.tree(op["codes"][0]))
-                    if t2 is t1:
+                    if c2 is c:
                         # (a minimised history may have lost the second instance: then the two are plain consecutive uses)
                         p1 = {"code": code1, "meta": _meta_of(t1), "meta_again": _meta_of(t1)}
                         t1.reset()
